@@ -145,7 +145,7 @@ def set_fs(rng):
 
 
 def w_dm(ctx, rng, i):
-    n = core.long_or(rng, i, LENGTHS[i % len(LENGTHS)], every=32)
+    n = core.long_or(rng, i, LENGTHS[i % len(LENGTHS)], every=32, huge=False)
     n_pol = int(rng.integers(1, 3))
     fs = set_fs(rng)
     x = make_field(rng, n, n_pol)
@@ -184,7 +184,7 @@ def w_dm(ctx, rng, i):
 
 
 def w_fiber(ctx, rng, i):
-    n = core.long_or(rng, i, LENGTHS[i % len(LENGTHS)], every=32)
+    n = core.long_or(rng, i, LENGTHS[i % len(LENGTHS)], every=32, huge=False)
     n_pol = int(rng.integers(1, 3))
     fs = set_fs(rng)
     x = make_field(rng, n, n_pol)
@@ -220,7 +220,7 @@ def w_fiber(ctx, rng, i):
 
 def w_two_grids(ctx, rng, i):
     """identical DM / FIBER arguments (same samples, same D, same betas) on two sampling rates and back: the filter must follow gv.fs."""
-    n = core.long_or(rng, i, int(rng.choice([64, 255, 256, 1001])))
+    n = core.long_or(rng, i, int(rng.choice([64, 255, 256, 1001])), huge=False)
     n_pol = int(rng.integers(1, 3))
     x = make_field(rng, n, n_pol)
     fa, fb = (float(v) for v in rng.choice([1e10, 1.6e10, 4e10, 8e10, 1e11], 2, replace=False))
